@@ -6,7 +6,30 @@ ENGINES = [
 NOTES = ("Static-analysis family only. Every check parses /repo/src/grid on each run; nothing in the "
          "package is imported or executed. Exit codes: 0 holds / only known findings, 1 VIOLATION, "
          "2 ANALYSIS-ERROR (undecided).")
-CHECKS = []
+_NOTE = ("Trusted base: CPython's ast parser; the library model of NumPy/SciPy callees in gridlint/e2.py; "
+         "closed world (no user subclasses, no dynamic attribute access - the loader fails the run if one appears).")
+CHECKS = [
+ {"id": "C02", "engine": "gridlint", "design_ref": "DESIGN.md 4/C02",
+  "technique": "static table/inventory analysis: constant-folded tables x string-dispatch extraction x npz header inventory",
+  "text": "Decides the labelling/shape clause only: every advertised (method, degree, size) is backed by exactly the file the loader opens, with the members it reads, points of shape (size,3), weights of shape (size,) or (1,), embedded labels equal to the name; the three dispatch chains agree and map methods to caches injectively. Exhaustive over all 450 table entries. Does NOT decide unit sphere / exactness / sum of weights (numerical; arrays are never loaded).",
+  "note": _NOTE + " npy headers are trusted to describe the stored arrays."},
+ {"id": "C12", "engine": "gridlint", "design_ref": "DESIGN.md 4/C12",
+  "technique": "static proof by rule: sortedness of constant-folded tables + recognised lower-bound (bisect_left) idiom + guard/return shape",
+  "text": "Decides the whole statement for all integer requests at once: tables strictly ascending and mutually inverse, resolver bisects list(keys()) of the dispatched table behind a range guard and returns the matching pair, every pair has its data file, the sequence converter is element-wise consistent, constructors store resolved values. An unrecognised lookup idiom yields exit 2 (undecided), never a pass.",
+  "note": _NOTE + " Contract of bisect.bisect_left and dict insertion order."},
+ {"id": "C17", "engine": "gridlint", "design_ref": "DESIGN.md 4/C17",
+  "technique": "static table<->loader agreement (keys subscripted by the loader vs shipped JSON entries)",
+  "text": "Decides only the clause 'every shipped per-element parameter set loads as matching arrays of positive exponents' (keys, equal lengths, positive finite exponents, reachable symbols, fresh conversion). The analytic exactness of the s/p potential formulas is NOT decided (algebraic identity, outside static analysis).",
+  "note": _NOTE},
+ {"id": "C19", "engine": "gridlint", "design_ref": "DESIGN.md 4/C19",
+  "technique": "static ownership/escape analysis of module-level state (abstract interpretation, whole-package fixpoint) + typestate rules on the set-once scale",
+  "text": "Decides for every history of calls: objects stored in the angular caches / Coulomb table never reach an instance field or return value without a copy or freeze barrier and are never written in place; cache dispatch injective and keyed by the resolved degree; inferred scale written only under `is None` and fixed before every use; no other transform field written after construction. Sound up to the library model; numerical equality of values is not computed.",
+  "note": _NOTE},
+ {"id": "C20", "engine": "gridlint", "design_ref": "DESIGN.md 4/C20",
+  "technique": "static alias/effect analysis: may-alias abstract interpretation with parametric summaries over every public entry; candidate accounting of all in-place constructs",
+  "text": "Decides the property for all public entries and all aliasing patterns: no in-place construct of the package (172 enumerated syntactically, each classified) is reachable by a caller-supplied object or by a value returned from a user callback, on any path. Over-approximation (may-alias), so a pass is a proof under the stated library model; a report carries the witness call path.",
+  "note": _NOTE},
+]
 _PENDING = "checker designed in DESIGN.md but not yet built in this commit"
 NOT_APPLICABLE = [
     {"property_id": "C01", "reason": "Exactness/ordering of quadrature rules for all n is numerical; the defective Fejer series bounds can only be recognised with the mathematics of the rule (CAS or experiment); no structural clause adds to the tests."},
@@ -15,4 +38,4 @@ NOT_APPLICABLE = [
     {"property_id": "C15", "reason": "Accuracy of ODE solutions and the Bell-polynomial coefficient transformation are numerical/algebraic; the in-place update found in this file is decided under C20."},
     {"property_id": "C16", "reason": "Accuracy and linearity of Poisson solutions are numerical; the option-dictionary write is decided under C20."},
 ] + [{"property_id": p, "reason": _PENDING} for p in
-     ["C02", "C03", "C04", "C05", "C06", "C07", "C10", "C11", "C12", "C13", "C14", "C17", "C18", "C19", "C20"]]
+     ["C03", "C04", "C05", "C06", "C07", "C10", "C11", "C13", "C14", "C18"]]
